@@ -1583,14 +1583,17 @@ impl DtlsInner {
         handshake_msg.encode(&mut buf);
         ctx.handshake_messages.extend_from_slice(&buf);
 
-        self.send_handshake_message(
-            handshake_msg,
-            ctx.epoch,
-            &mut ctx.sequence_number,
-            None,
-            is_client,
-        )
-        .await?;
+        // The ClientKeyExchange record belongs to this flight: keep it so that the
+        // retransmission timer re-sends it if the datagram is lost.
+        let client_key_exchange_record = self
+            .send_handshake_message(
+                handshake_msg,
+                ctx.epoch,
+                &mut ctx.sequence_number,
+                None,
+                is_client,
+            )
+            .await?;
         ctx.message_seq += 1;
 
         // Compute shared secret
@@ -1653,7 +1656,7 @@ impl DtlsInner {
         ctx.session_crypto = Some(create_session_crypto(keys.clone())?);
         ctx.session_keys = Some(keys);
 
-        let mut flight_records: Vec<Vec<u8>> = Vec::new();
+        let mut flight_records: Vec<Vec<u8>> = vec![client_key_exchange_record];
 
         // Send ChangeCipherSpec
         let record = DtlsRecord {
@@ -1700,7 +1703,10 @@ impl DtlsInner {
             ctx.session_keys.as_ref(),
             is_client,
         )?);
-        self.conn.send_dtls_record_batch(&flight_records).await?;
+        // ClientKeyExchange (flight_records[0]) has just been sent on its own above.
+        self.conn
+            .send_dtls_record_batch(&flight_records[1..])
+            .await?;
         ctx.last_flight_records = Some(flight_records);
         ctx.message_seq += 1;
 
